@@ -2698,6 +2698,21 @@ func (s *Store) fsmSnapshot() (fSnap raft.FSMSnapshot, retErr error) {
 		//
 		// A failed FULL snapshot is always retryable, since we're looking to capture
 		// the entire database. So return the error and Raft will retry.
+		//
+		// Any WAL files still in the staging directory (left there by an earlier snapshot
+		// whose persist was skipped or failed) describe changes relative to the previous
+		// snapshot chain, possibly to a database that has since been replaced. The full
+		// snapshot starts a new chain, so they must not be packaged into the incremental
+		// snapshot that follows it. Until a full snapshot is actually installed nothing
+		// else may be taken, since the delta those files held is gone.
+		if staged, err := snapshot.NewStagingDir(s.walStagingDir).WALFiles(); err == nil && len(staged) > 0 {
+			if err := s.snapshotStore.SetDueNext(snapshot.Full); err != nil {
+				return nil, err
+			}
+			if err := os.RemoveAll(s.walStagingDir); err != nil {
+				return nil, fmt.Errorf("failed to remove stale WAL staging directory: %w", err)
+			}
+		}
 		if meta, _, err := s.checkpointer.Checkpoint(nil, truncateTimeout); err != nil {
 			return nil, fmt.Errorf("checkpoint failed during full snapshot: %w", err)
 		} else if !meta.Success() {
@@ -2855,6 +2870,12 @@ func (s *Store) fsmRestore(rc io.ReadCloser) (retErr error) {
 	}
 	if err := s.db.Swap(tmpPath, s.dbConf.FKConstraints, true); err != nil {
 		return fmt.Errorf("error swapping database file: %v", err)
+	}
+	// The database has been replaced by the one in the snapshot, which is also the newest
+	// snapshot in the store. Staged WAL files belong to the database that was just replaced
+	// and must not be packaged into the next incremental snapshot.
+	if err := os.RemoveAll(s.walStagingDir); err != nil {
+		return fmt.Errorf("failed to remove stale WAL staging directory: %w", err)
 	}
 	s.logger.Printf("successfully opened database at %s due to restore", s.db.Path())
 	// Installed SQLite database is safe for fast restarts again.
